@@ -266,6 +266,8 @@ def run_make(case, rec):
     fn = getattr(segno, case['fn'])
     kw = case['kw']
     given = '+'.join(sorted(kw))
+    monitors.State.last = None
+    monitors.State.seq_last = None
     try:
         q = fn(case['content'], **kw)
         ex = None
@@ -278,6 +280,7 @@ def run_make(case, rec):
         reason = None
     if ex is None:
         rec.count('accepted')
+        common.check_forwarding(case, rec, 'C14')
         rec.seen('%s|accepted|%s' % (case['fn'], given))
         if reason:
             rec.deviation('C14', 'excluded-combination-accepted', {'reason': reason, 'got': getattr(q, 'designator', None) or [x.designator for x in q]})
